@@ -100,6 +100,15 @@ theorem zeros_cut_const (p : ChunkParams) (y : Bytes) (hw : winSize ≤ p.min) (
     cutRoll p (List.replicate p.max 0 ++ y) = cutRoll p (List.replicate p.max 0) :=
   cutRoll_prefix_of_min p _ y hmm (by simp) hw
 
+/-- **Advance**: after `Chunker.Advance(n)` (seekable reader) the chunker produces the single-stream
+    chunks of the data `n` bytes further on, at positions shifted by `n` — what the parallel
+    chunker's null-chunk fast-forward relies on when it skips over a zero run -/
+theorem advance_restarts (p : ChunkParams) (hmm : p.min ≤ p.max) (hmax : 0 < p.max) (hw : winSize ≤ p.max)
+    (c : Buffered) (n : Nat) (hinv : c.inv) :
+    Buffered.all p ((c.rem.drop n).length + 1) (c.advance n) =
+      chunkAllFrom (c.start + n) (chunkLens p (c.rem.drop n)) :=
+  Buffered.all_after_advance p hmm hmax hw c n hinv
+
 set_option maxRecDepth 8192 in
 /-- regenerated sites this property depends on were all found in /repo, and the loop tests
     the forced cut before the boundary (the order the cut rule above assumes) -/
